@@ -90,16 +90,17 @@ def findSteps (da : DA Int) (h : List Nat) (ms : List (Match Int)) : Except Faul
 structure Acc where
   env : Env
   lines : Array String := #[]
+  tag : String := ""     -- `kind=<k> variant=<B|C> vtype=<t>` of the case, copied into every verdict line
 
 def Acc.corr (a : Acc) (suite id detail : String) : Acc :=
-  { env := { a.env with corr := a.env.corr + 1 },
-    lines := a.lines.push s!"CORR suite={suite} case={id} {detail}" }
+  let e : Env := { a.env with corr := a.env.corr + 1 }
+  ⟨e, a.lines.push s!"CORR suite={suite} case={id} {a.tag} {detail}", a.tag⟩
 def Acc.prop (a : Acc) (pid id detail : String) : Acc :=
-  { env := { a.env with prop := a.env.prop + 1 },
-    lines := a.lines.push s!"PROP id={pid} case={id} {detail}" }
+  let e : Env := { a.env with prop := a.env.prop + 1 }
+  ⟨e, a.lines.push s!"PROP id={pid} case={id} {a.tag} {detail}", a.tag⟩
 def Acc.inv (a : Acc) (name id detail : String) : Acc :=
-  { env := { a.env with inv := a.env.inv + 1 },
-    lines := a.lines.push s!"INV name={name} case={id} {detail}" }
+  let e : Env := { a.env with inv := a.env.inv + 1 }
+  ⟨e, a.lines.push s!"INV name={name} case={id} {a.tag} {detail}", a.tag⟩
 
 def numChars (h : List Nat) : Nat := (h.filter fun b => !(0x80 ≤ b && b < 0xC0)).length
 
@@ -320,7 +321,11 @@ def groupKeyOf (id : String) : String :=
 /-- All checks for one case. -/
 def checkCase (env : Env) (c : Case) : Env × Array String := Id.run do
   if c.id.isEmpty then return (env, #[])
-  let mut a : Acc := { env := { env with cases := env.cases + 1 } }
+  let vname := match c.variant with
+    | .bytewise => "B"
+    | .charwise => "C"
+  let mut a : Acc := { env := { env with cases := env.cases + 1 },
+                       tag := s!"kind={c.kind} variant={vname} vtype={c.vtype} nfb={c.nfb}" }
   let P := if c.vtype == "empty" then c.pats.toList.map (fun p => { p with value := 0 }) else c.pats.toList
   let defects := expectedBuild c P
   let LP : List (LPat Int) := match lpatsOf c.variant P with
@@ -410,7 +415,19 @@ def checkCase (env : Env) (c : Case) : Env × Array String := Id.run do
   else if gk != "" then
     env' := { a.env with groupKey := gk, groupResults := results, groupNs := c.ns.getD 0 }
   env' := { env' with prevId := c.id, prevResults := results }
-  let lines := if a.lines.isEmpty then #[s!"OK {c.id}"] else a.lines
+  -- one INFO line per case: a hash of the construction input and the non-triviality flag
+  -- (rule: at least two patterns sharing their first or last byte, or a multi-block table)
+  let keys := P.map (·.key)
+  let firsts := keys.filterMap List.head?
+  let lasts := keys.filterMap List.getLast?
+  let shares := firsts.eraseDups.length < firsts.length || lasts.eraseDups.length < lasts.length
+  let multi := match c.st with
+    | some st => st.size > 256
+    | none => false
+  let nt := (P.length ≥ 2 && shares) || multi
+  let hsh := hash (a.tag, P.map fun p => (p.key, p.value))
+  let lines := (if a.lines.isEmpty then #[s!"OK {c.id}"] else a.lines).push
+    s!"INFO {c.id} h={hsh} nt={if nt then 1 else 0} pats={P.length} hays={c.hays.size} build={c.build.replace " " ":"}"
   return (env', lines)
 
 end Daac.Driver
